@@ -53,6 +53,8 @@ type chainView struct {
 	Conflicts   map[util.Uint256][]conflictRec // hash named by a Conflicts attribute of an on-chain tx
 	Balance     map[util.Uint160]int64         // GAS of the accounts that send transactions here
 	Blocked     map[util.Uint160]bool          // accounts blocked by Policy
+	AttrFee     map[transaction.AttrType]int64 // Policy attribute fees (absent = 0)
+	Contracts   map[util.Uint160]bool          // deployed contracts whose verify method accepts everything (instances of U)
 }
 
 type verdict struct {
@@ -209,13 +211,25 @@ func (cv *chainView) txRules(t *transaction.Transaction) []string {
 	}
 	need := int64(size) * cv.FeePerByte
 	for i := range t.Signers {
-		if ok, s := witnessOK(t.Signers[i].Account, &t.Scripts[i], cv.Magic, t); !ok {
+		if len(t.Scripts[i].VerificationScript) == 0 && len(t.Scripts[i].InvocationScript) == 0 {
+			// contract signer: the deployed contract's verify method decides
+			if !cv.Contracts[t.Signers[i].Account] {
+				why = append(why, fmt.Sprintf("witness %d: no deployed verification contract", i))
+			}
+		} else if ok, s := witnessOK(t.Signers[i].Account, &t.Scripts[i], cv.Magic, t); !ok {
 			why = append(why, fmt.Sprintf("witness %d: %s", i, s))
 		}
 		f, _ := fee.Calculate(cv.BaseExecFee, t.Scripts[i].VerificationScript)
 		need += f
 		if cv.Blocked[t.Signers[i].Account] {
 			why = append(why, "signer blocked by policy")
+		}
+	}
+	for _, a := range t.Attributes {
+		if a.Type == transaction.ConflictsT {
+			need += cv.AttrFee[a.Type] * int64(len(t.Signers))
+		} else {
+			need += cv.AttrFee[a.Type]
 		}
 	}
 	if t.NetworkFee < need {
